@@ -16,39 +16,59 @@ static ESL_HEAP *HP;
 static ESL_RED_BLACK_DOUBLEKEY *RB;
 static ESL_STACK *ST; static char STYPE = 'i';
 
-/* ---- watchdog: a broken implementation may loop for ever (e.g. a cyclic hash chain). Each case gets a time limit; the
- * process then dies (the engine reports `fault ...` for the case and restarts after it). After H_MAXHANGS such deaths in one
- * run (counted in a file of the run's private working directory) the remaining cases are answered `fault hang-limit`
- * at once, so that a hanging implementation costs a bounded amount of time. */
+/* ---- watchdog: a broken implementation may loop for ever (e.g. a cyclic hash chain) or become pathologically slow
+ * (e.g. an allocation that doubles at every call). Each case gets a time limit: the process then dies, the engine reports
+ * `fault ...` for the case and restarts after it. The seconds spent in timed-out or slow (>= 1 s) cases are added up in a
+ * file of the run's private working directory; once they exceed the budget (env C19_TIME_BUDGET, default 150 s) the
+ * remaining cases are answered `fault time-limit` at once, so that a broken tree costs a bounded amount of time.
+ * On an intact tree the cases of the quick tier take milliseconds (the longest ~0.3 s); the thorough tier's 10^5-operation
+ * histories take a few seconds each and get a budget of 1500 s. */
 #include <signal.h>
 #include <unistd.h>
 #include <fcntl.h>
+#include <time.h>
 #include <sys/stat.h>
 #define H_CASE_SECONDS 40
-#define H_MAXHANGS     3
-#define H_HANGFILE     "c19.hangs"
+#define H_SLOW_SECONDS 1
+#define H_TIMEFILE     "c19.seconds"
 static int h_skip_case;
+static struct timespec h_t0;
+static void h_charge(long seconds)          /* async-signal-safe */
+{
+  static const char buf[64] = "................................................................";
+  int fd = open(H_TIMEFILE, O_WRONLY | O_CREAT | O_APPEND, 0600);
+  if (fd < 0) return;
+  while (seconds > 0) { long k = seconds > 64 ? 64 : seconds; if (write(fd, buf, (size_t) k) < 0) break; seconds -= k; }
+  close(fd);
+}
 static void h_on_alarm(int sig)
 {
   static const char msg[] = "\nhang: case exceeded its time limit (watchdog)\n";
-  int fd = open(H_HANGFILE, O_WRONLY | O_CREAT | O_APPEND, 0600);
   (void) sig;
-  if (fd >= 0) { if (write(fd, "h", 1) < 0) { } close(fd); }
+  h_charge(H_CASE_SECONDS);
   if (write(2, msg, sizeof(msg) - 1) < 0) { }
   _exit(124);
 }
 static void h_watchdog_begin(void)
 {
-  struct stat st;
-  h_skip_case = (stat(H_HANGFILE, &st) == 0 && st.st_size >= H_MAXHANGS);
-  if (!h_skip_case) { signal(SIGALRM, h_on_alarm); alarm(H_CASE_SECONDS); }
+  struct stat st; const char *e = getenv("C19_TIME_BUDGET"); long budget = e ? atol(e) : 150;
+  h_skip_case = (stat(H_TIMEFILE, &st) == 0 && (long) st.st_size >= budget);
+  if (!h_skip_case) { signal(SIGALRM, h_on_alarm); alarm(H_CASE_SECONDS); clock_gettime(CLOCK_MONOTONIC, &h_t0); }
 }
-static void h_watchdog_end(void) { alarm(0); }
+static void h_watchdog_end(void)
+{
+  struct timespec t1;
+  alarm(0);
+  if (h_skip_case) return;
+  clock_gettime(CLOCK_MONOTONIC, &t1);
+  { long ms = (long)(t1.tv_sec - h_t0.tv_sec) * 1000 + (long)(t1.tv_nsec - h_t0.tv_nsec) / 1000000;
+    if (ms >= 1000 * H_SLOW_SECONDS) h_charge((ms + 500) / 1000); }
+}
 
 static uint64_t fnv(uint64_t h, uint64_t x) { return (h ^ x) * 0x100000001b3ULL; }
 #define FNV0 0xcbf29ce484222325ULL
 
-static void h_case_begin(void) { h_watchdog_begin(); RBEXP = 0; KH2 = NULL; KH = esl_keyhash_Create(); HP = esl_heap_ICreate(eslHEAP_MIN); RB = NULL; ST = esl_stack_ICreate(); STYPE = 'i'; }
+static void h_case_begin(void) { h_watchdog_begin(); RBEXP = 0; KH2 = NULL; KH = NULL; HP = NULL; RB = NULL; ST = NULL; if (h_skip_case) return; KH = esl_keyhash_Create(); HP = esl_heap_ICreate(eslHEAP_MIN); RB = NULL; ST = esl_stack_ICreate(); STYPE = 'i'; }
 static void h_case_end(void)
 {
   h_watchdog_end();
@@ -157,7 +177,7 @@ static int qcmp(const void *data, int o1, int o2)
 static void h_op(void)
 {
   const char *op = h_words[0];
-  if (h_skip_case) { h_out("fault hang-limit"); return; }
+  if (h_skip_case) { h_out("fault time-limit"); return; }
   /* ------------------------------------------------ keyhash */
   if (!strcmp(op, "kh_new")) {
     if (KH) esl_keyhash_Destroy(KH);
